@@ -103,10 +103,12 @@ EXTRA = {
          ' The protocol state machine, built and walked by interpretation, reaches the most specific node whose attributes are ALL present; nothing is de-duplicated by repr().'),
 }
 
+CLAIMED['C07'] = ('raise-site / exception_cls typing against the forward-reference exception family (found by role) + abstract interpretation (the analyser\'s own interpreter, scripted resolvers and frames) of the forward-reference proxy\'s resolution property, of the proxy\'s resolver, of the scope maker and of the scope\'s __missing__ + ordering / handler analysis of the routes that can be handed a string',
+         'PARTIAL: the equality of verdicts between the string and the evaluated spelling of a program is NOT decided (it depends on frames, module tables and definition order at run time). Decided are structural clauses of the property, each a necessary condition: an unresolvable name can only surface as a forward-reference exception of beartype.roar; a failed resolution is not remembered and a successful one is (usable once defined, without re-decoration); the proxy resolves a name to the module attribute, else to the local of the still-running enclosing callable, else raises; a string is evaluated in a scope with Python\'s precedence (class body, enclosing locals, globals, builtins), built once per decorated callable, with the classes being decorated visible by name; an undefined name yields a stored proxy instead of failing the decoration; every route resolves a string before anything else looks at the hint and converts whatever the evaluation raises.',
+         AST_NOTE + ' The scripted resolvers, frames and expected outcomes are specification written from the property text.', 'DESIGN.md §4 C07, §5')
+
 NOT_YET = {}
-NOT_APPLICABLE = {
- 'C07': 'what a string / postponed annotation denotes is the result of eval against scopes assembled at run time from module globals, class stacks and live frames, and "usable once defined" quantifies over later states of those namespaces; no sound static argument in reach bounds either (DESIGN.md §5). Nearby shape facts are decided under C11 and C14.',
-}
+NOT_APPLICABLE = {}      # C07 was listed here until its structural clauses were split off and claimed (DESIGN.md §5)
 
 def main():
     props = [json.loads(l)['id'] for l in open(os.path.join(HERE, 'properties.jsonl'))]
